@@ -16,11 +16,11 @@ import (
 )
 
 type kparse struct {
-	op                        string
-	vec, sv, vs, incr, iter   bool
-	same                      bool
-	dt                        string
-	family                    string // arith | cmp | minmax | unary | arg
+	op                      string
+	vec, sv, vs, incr, iter bool
+	same, recv              bool
+	dt                      string
+	family                  string // arith | cmp | minmax | unary | arg
 }
 
 var kDtypeSuffixes = []string{"C128", "C64", "F64", "F32", "I64", "I32", "I16", "I8", "U64", "U32", "U16", "U8", "Uintptr", "UnsafePointer", "Str", "I", "U", "B"}
@@ -55,6 +55,10 @@ func parseKernelName(name string) (kparse, bool) {
 	if strings.HasPrefix(rest, "Vec") {
 		k.vec = true
 		rest = strings.TrimPrefix(rest, "Vec")
+	}
+	if strings.Contains(rest, "Recv") {
+		k.recv = true
+		rest = strings.Replace(rest, "Recv", "", 1)
 	}
 	for _, tok := range []string{"Incr", "Iter", "Same"} {
 		if strings.Contains(rest, tok) {
@@ -308,6 +312,8 @@ func runKernel(ex *Exec, fn *ssa.Function) {
 	switch k.family {
 	case "arith", "minmax", "cmp":
 		switch {
+		case k.recv:
+			destName = "recv"
 		case k.incr:
 			destName = "incr"
 		case k.family == "cmp" && !k.same:
@@ -334,7 +340,7 @@ func runKernel(ex *Exec, fn *ssa.Function) {
 			switch destName {
 			case "b":
 				di = j
-			case "incr", "retVal":
+			case "incr", "retVal", "recv":
 				di = r
 			}
 			val := applyBin(x, y)
